@@ -489,6 +489,11 @@ fn gen_c03(rng: &mut Rng, seed: u64, index: u64, long: bool) -> Scenario {
         alt: None,
     });
     for i in 0..steps {
+        if g.rng.chance(0.25) {
+            // read-only queries that change how the next mask is computed (pending forced bytes ...)
+            let n = g.rng.range(1, 2);
+            g.perturb(0, n);
+        }
         g.ops.push(Op::Mask { h: 0, fuel_at: None });
         if i % 8 == 3 {
             g.ops.push(Op::ChkDead {
@@ -542,6 +547,32 @@ fn gen_c10(rng: &mut Rng, seed: u64, index: u64, long: bool) -> Scenario {
     sc.mirrors = vec![(0..n_eng).collect()];
     let steps = if long { rng.range(30, 80) } else { rng.range(12, 36) };
     let mut g = G { rng, ops: vec![] };
+    // other grammars are driven on the same (shared) sliced factories first, and now and then later
+    let warm = |g: &mut G, vocab: &VocabSpec, n_eng: usize| {
+        let e = pick_entry(
+            g.rng,
+            &WorldOpts {
+                avoid_tags: vec!["heavy", "tokref"],
+                prefer_tags: vec!["str"],
+                ..WorldOpts::default()
+            },
+        );
+        let text = instantiate_grammar_text(e.text, vocab);
+        for i in 1..n_eng {
+            let s = g.rng.next_u64();
+            g.ops.push(Op::Warm {
+                alt: Some(i - 1),
+                kind: e.kind,
+                text: text.clone(),
+                steps: g.rng.range(2, 10),
+                seed: s,
+            });
+        }
+    };
+    let vocab = sc.world.vocab.clone();
+    if g.rng.chance(0.6) {
+        warm(&mut g, &vocab, n_eng);
+    }
     g.ops.push(Op::New {
         h: 0,
         kind: HKind::Matcher,
@@ -576,6 +607,10 @@ fn gen_c10(rng: &mut Rng, seed: u64, index: u64, long: bool) -> Scenario {
         if g.rng.chance(0.05) {
             let k = g.rng.range(1, 3);
             g.ops.push(Op::Rollback { h: 0, k });
+            g.ops.push(Op::ChkMirror { h: 0 });
+        }
+        if g.rng.chance(0.04) {
+            warm(&mut g, &vocab, n_eng);
             g.ops.push(Op::ChkMirror { h: 0 });
         }
     }
@@ -1617,9 +1652,21 @@ pub fn mutate_text(rng: &mut Rng, text: &str, kind: GKind) -> String {
                 // nesting amplification
                 let depth = rng.range(50, 3000);
                 let (open, close) = match kind {
-                    GKind::Json => ("{\"items\":", "}"),
-                    GKind::Regex => ("(", ")"),
-                    GKind::Lark => ("(", ")"),
+                    GKind::Json => *rng.pick(&[
+                        ("{\"items\":", "}"),
+                        ("{\"anyOf\":[", "]}"),
+                        ("{\"properties\":{\"a\":", "}}"),
+                        ("{\"allOf\":[{\"not\":", "}]}"),
+                        ("[", "]"),
+                    ]),
+                    GKind::Regex => *rng.pick(&[("(", ")"), ("(?:", ")"), ("(a|", ")"), ("(", ")*")]),
+                    GKind::Lark => *rng.pick(&[
+                        ("(", ")"),
+                        ("[", "]"),
+                        ("%lark {\nstart: ", "\n}"),
+                        ("(\"a\" | ", ")"),
+                        ("%json {\"items\":", "}"),
+                    ]),
                 };
                 let at = rng.below(b.len());
                 let mut nb = b[..at].to_vec();
